@@ -62,6 +62,7 @@ func (c *Ctx) c19Server(rel, name string) {
 	}
 	fns := pkgFuncs(p, rel)
 	nGo := 0
+	var spawned []*ssa.Function // what the session-starting go statements run (the root, or a wrapper around it)
 	for _, fn := range fns {
 		fn := fn
 		eng.EachInstr(fn, func(in ssa.Instruction) {
@@ -77,6 +78,7 @@ func (c *Ctx) c19Server(rel, name string) {
 				return // e.g. `go s.serve(ctx)`: reaches the root only through another go statement
 			}
 			nGo++
+			spawned = append(spawned, callee)
 			cons := name + ":session-spawn@" + shortFn(fn)
 			site := p.InstrPos(in)
 			// Add dominates go
@@ -148,6 +150,29 @@ func (c *Ctx) c19Server(rel, name string) {
 	}
 	if detached == 0 {
 		r.Ok("C19/WG/add-before-go", name+":no-detached-go", p.Pos(root.Pos()), "no uncounted go statement in the %d functions a session runs", len(sessFns))
+	}
+	{
+		// the goroutine a session runs in starts at the spawned function, which may be a wrapper
+		// around the session root
+		all := append([]*ssa.Function{}, sessFns...)
+		have := map[*ssa.Function]bool{}
+		for _, fn := range all {
+			have[fn] = true
+		}
+		for fn := range p.SyncReach(spawned...) {
+			if eng.FuncPkgPath(fn) == eng.Mod+"/"+rel && !have[fn] {
+				have[fn] = true
+				all = append(all, fn)
+			}
+		}
+		for _, fn := range spawned {
+			if !have[fn] {
+				have[fn] = true
+				all = append(all, fn)
+			}
+		}
+		sortFuncs(all)
+		c.c19SessionCtx(rel, name, start, root, all)
 	}
 	// every Add in the package is balanced by a deferred Done in the same function or precedes a go
 	// D2 drain
@@ -1195,4 +1220,178 @@ func waitName(in ssa.Instruction) string {
 		}
 	}
 	return "a Drain/Join call made through a function value"
+}
+
+// isCtxType: context.Context.
+func isCtxType(t types.Type) bool {
+	n, ok := t.(*types.Named)
+	return ok && n.Obj().Pkg() != nil && n.Obj().Pkg().Path() == "context" && n.Obj().Name() == "Context"
+}
+
+// c19SessionCtx: open sessions may finish after shutdown was requested, so nothing a session
+// runs may depend on the context whose cancellation requests the shutdown. The services'
+// context (the Context parameter of Start) is followed through the package — call arguments
+// (also at go statements), struct fields it is stored in, contexts derived from it
+// (context.With…), its Done channel — and no such value may be used in a function a session
+// runs, nor be handed to the session root.
+func (c *Ctx) c19SessionCtx(rel, name string, start, root *ssa.Function, sessFns []*ssa.Function) {
+	r, p := c.R, c.P
+	rule := "C19/SESSION/no-ctx"
+	r.Rule(rule, "the context whose cancellation requests the shutdown (the Context parameter of Server.Start), anything derived from it (context.With…, Done()) and any field it is stored in are not used by the functions a session runs and are not passed to the session root: an open session completes its dialogue")
+	tainted := map[ssa.Value]bool{}
+	fields := map[*types.Var]bool{}
+	for _, prm := range start.Params {
+		if isCtxType(prm.Type()) {
+			tainted[prm] = true
+		}
+	}
+	if len(tainted) == 0 {
+		r.Ok(rule, name+":session-code", p.Pos(start.Pos()), "Start takes no context")
+		return
+	}
+	fns := pkgFuncs(p, rel)
+	isT := func(v ssa.Value) bool {
+		if tainted[v] {
+			return true
+		}
+		if f := eng.LoadedField(v); f != nil {
+			for g := range fields {
+				if eng.SameField(f, g) {
+					return true
+				}
+			}
+		}
+		return false
+	}
+	for changed := true; changed; {
+		changed = false
+		mark := func(v ssa.Value) {
+			if v != nil && !tainted[v] {
+				tainted[v] = true
+				changed = true
+			}
+		}
+		for _, fn := range fns {
+			fn := fn
+			eng.EachInstr(fn, func(in ssa.Instruction) {
+				switch x := in.(type) {
+				case *ssa.Store:
+					if isT(x.Val) {
+						if fa, ok := x.Addr.(*ssa.FieldAddr); ok {
+							if f := eng.FieldOfAddr(fa); f != nil && !fields[f] {
+								fields[f] = true
+								changed = true
+							}
+						} else if al := eng.CellOf(x.Addr); al != nil {
+							for _, ld := range eng.CellLoads(al) {
+								mark(ld)
+							}
+						}
+					}
+				case *ssa.Phi:
+					for _, e := range x.Edges {
+						if isT(e) {
+							mark(x)
+						}
+					}
+				case *ssa.MakeInterface:
+					if isT(x.X) {
+						mark(x)
+					}
+				case *ssa.ChangeInterface:
+					if isT(x.X) {
+						mark(x)
+					}
+				case *ssa.Extract:
+					if isT(x.Tuple) {
+						if isCtxType(x.Type()) {
+							mark(x)
+						}
+					}
+				case *ssa.UnOp:
+					if x.Op == token.MUL && isT(x) {
+						mark(x)
+					}
+				}
+				cc := eng.CallOf(in)
+				if cc == nil {
+					return
+				}
+				// derived contexts and the Done channel
+				if v, ok := in.(ssa.Value); ok {
+					if cc.IsInvoke() && isT(cc.Value) && (cc.Method.Name() == "Done" || cc.Method.Name() == "Err") {
+						mark(v)
+					}
+					if nm := eng.CalleeName(cc); strings.HasPrefix(nm, "context.With") && len(cc.Args) > 0 && isT(cc.Args[0]) {
+						mark(v)
+					}
+				}
+				callee := eng.StaticCallee(cc)
+				if callee == nil || eng.FuncPkgPath(callee) != eng.Mod+"/"+rel || callee.Blocks == nil {
+					return
+				}
+				args := cc.Args
+				for i, a := range args {
+					if isT(a) && i < len(callee.Params) {
+						mark(callee.Params[i])
+					}
+				}
+				if mc, ok := cc.Value.(*ssa.MakeClosure); ok {
+					for i, b := range mc.Bindings {
+						if isT(b) && i < len(callee.FreeVars) {
+							mark(callee.FreeVars[i])
+						}
+					}
+				}
+			})
+		}
+	}
+	nBad := 0
+	ord := map[string]int{}
+	inSess := map[*ssa.Function]bool{root: true}
+	for _, fn := range sessFns {
+		inSess[fn] = true
+	}
+	for _, prm := range root.Params {
+		if isT(prm) {
+			nBad++
+			r.Bad(rule, name+":session-root@"+shortFn(root), p.Pos(root.Pos()), "the shutdown context is handed to the session root %s: a session that observes it is cut off by the shutdown request instead of completing its dialogue", shortFn(root))
+		}
+	}
+	var list []*ssa.Function
+	for fn := range inSess {
+		list = append(list, fn)
+	}
+	sortFuncs(list)
+	for _, fn := range list {
+		fn := fn
+		reported := false
+		eng.EachInstr(fn, func(in ssa.Instruction) {
+			if reported {
+				return
+			}
+			for _, op := range in.Operands(nil) {
+				if op == nil || *op == nil {
+					continue
+				}
+				if _, isPrm := (*op).(*ssa.Parameter); isPrm && fn == root {
+					continue // reported above
+				}
+				if isT(*op) {
+					reported = true
+					nBad++
+					r.Bad(rule, siteCons(p, in, ord, name+":use"), p.InstrPos(in), "%s, which a session runs, uses the context whose cancellation requests the shutdown (or a value derived from it): after the shutdown request the operation fails or is abandoned, so an open session cannot complete its dialogue (its message is not stored and acknowledged, Drain returns early or the client is cut off)", shortFn(fn))
+					return
+				}
+			}
+		})
+	}
+	if nBad == 0 {
+		var fl []string
+		for f := range fields {
+			fl = append(fl, f.Name())
+		}
+		sort.Strings(fl)
+		r.Ok(rule, name+":session-code", p.Pos(root.Pos()), "the shutdown context reaches %d values and fields %v of the package; none is used in the %d functions a session runs", len(tainted), fl, len(list))
+	}
 }
